@@ -235,6 +235,25 @@ def run(tier, seed):
                                "form": detail["form"], "leg": leg, "dedupe": skeleton_of(detail["form"])},
                               {"forms": [show(f) for f in h], "detail": detail, "leg": leg})
         ctx.legs.append(leg)
+    if tier == "thorough":
+        # Miri leg: the same histories, a few of them, under the UB / aliasing interpreter (RefCell borrows of the environment and of vectors)
+        from . import sanitize
+        sl = hists[:16]
+        mjobs = [diff.job_for(h[:40], "m%d" % i) for i, h in enumerate(sl)]
+        mrecs, reports = sanitize.miri_run(mjobs, processes=16)
+        for r in reports:
+            if r["ub"]:
+                ctx.violation({"what": "Miri reports undefined behaviour during a store history", "kind": "miri", "report": r["stderr"][-600:], "dedupe": "miri"}, {"report": r["stderr"]})
+        for h, rec in zip(sl, mrecs):
+            if rec is None or "steps" not in rec:
+                ctx.count("miri_histories_without_record"); continue
+            verdict, detail = diff.compare_history(h[:40], rec["steps"], check_alias=True)
+            if verdict == "ok":
+                ctx.count("miri_histories_agree"); ctx.count("miri_steps", len(rec["steps"]))
+            elif verdict == "mismatch":
+                ctx.violation({"what": "store history disagrees with the store model under Miri", "kind": "store", "why": detail["why"][:300], "form": detail["form"], "leg": "miri",
+                               "dedupe": "miri|" + skeleton_of(detail["form"])}, {"forms": [show(f) for f in h[:40]], "detail": detail})
+        ctx.legs.append("miri")
     ctx.sample({"history": [show(f) for f in hists[0]][:40]})
     return ctx.finish(min_evals=100, min_nontrivial=50)
 
